@@ -613,9 +613,13 @@ structure Tables where
   knownGroups : List (Str × List Str)
   aurelToET : List (Str × List Str)
 
+/-- A simulation directory: `entries` = `os.listdir(simpath + simname)` (every
+entry: directories, links, plain files); `restarts` describes the content of
+the directories `output-<%04d>/<simname>/` that exist. -/
 structure Sim where
   simpath : Str
   simname : Str
+  entries : List Str
   restarts : List RestartDir
 
 abbrev VarsAndFiles := List (List Str × List Str)
@@ -891,9 +895,30 @@ def processRestart (T : Tables) (S : Sim) (dir : RestartDir) (vf : VarsAndFiles)
     (checkpointIts (restartPath S.simpath S.simname dir.nbr) dir.files)
   { lines := f.1, stale := d.stale, err := f.2 }
 
+def sOutput : Str := ['o', 'u', 't', 'p', 'u', 't', '-']
+
+/-- `re.compile(r'^output-(\d+)$').match(entry)`, then `int(entry.split('-')[1])`:
+the whole entry name must be `output-` followed by digits only (`$` also
+accepts one final newline) -/
+def matchOutput (e : Str) : Option Nat :=
+  match dropLit sOutput e with
+  | none => none
+  | some r =>
+    let d := r.takeWhile isDig
+    let rest := r.dropWhile isDig
+    if !d.isEmpty && (rest == [] || rest == ['\n']) then
+      match (split ['-'] e)[1]? with
+      | some t => (pyInt t).map Int.toNat
+      | none => none
+    else none
+
+/-- `all_restarts` before sorting: the numbers of the directory entries that
+match `^output-(\d+)$`, one per matching entry -/
+def discover (entries : List Str) : List Nat := entries.filterMap matchOutput
+
 /-- restarts still to be processed -/
 def todo (S : Sim) (skipLast : Bool) (done : List Int) : List Nat :=
-  let all := sortNat (S.restarts.map (·.nbr))
+  let all := sortNat (discover S.entries)
   let all := if skipLast then all.dropLast else all
   all.filter fun r => !done.contains (r : Int)
 
